@@ -9,7 +9,7 @@ use crate::ctx::{guard, show, unshow, CaseCtx, Ctx, Tier};
 use crate::gen;
 use bio::alphabets::dna;
 use bio::data_structures::bwt::{bwt, less, Less, Occ, BWT};
-use bio::data_structures::fmindex::{BiInterval, FMDIndex, FMIndex};
+use bio::data_structures::fmindex::{BiInterval, FMDIndex, FMIndex, FMIndexable};
 use bio::data_structures::suffix_array::suffix_array;
 use serde_json::{json, Value};
 
@@ -415,6 +415,11 @@ fn lmax(tier: Tier) -> usize {
     tier.pick(3, 6)
 }
 
+/// pattern bound of the route units: one symbol shorter than in the main units
+fn route_pat_len(f: &Family, tier: Tier) -> usize {
+    tier.pick(f.pat.0, f.pat.1) - 1
+}
+
 fn family_sets(f: &Family, tier: Tier) -> Vec<Vec<Vec<u8>>> {
     let mut sets: Vec<Vec<Vec<u8>>> = gen::strings(f.seq_alpha, 1, tier.pick(f.single.0, f.single.1))
         .into_iter()
@@ -498,6 +503,230 @@ fn run_set(ctx: &mut Ctx, seqs: &[Vec<u8>], rates: &[u32], pats: &[Vec<u8>], lma
 
 const NSHARDS: usize = 48;
 
+// ------------------------------------------------------------------ alternative routes
+//
+// (1) `unsafe FMDIndex::from_fmindex_unchecked` is `FMDIndex::from` without the alphabet check: on
+//     a valid DNA text both must give an index that answers identically (smems, all_smems, every
+//     extension step).  (2) `impl FMIndexable for FMDIndex` delegates occ / less / bwt /
+//     backward_search to the wrapped FM index: the answers through the wrapper must be those of a
+//     plain FMIndex over the same components.  The index returned by `from` is the one the main
+//     units compare with the naive scan over the same (set, rate, pattern) space.
+
+const ROUTE_SHARDS: usize = 8;
+/// every symbol the index alphabet (dna::n_alphabet() plus sentinel) contains
+const INDEX_SYMBOLS: &[u8] = b"$ACGTNacgtn";
+
+type Fm<'a> = FMIndex<&'a BWT, &'a Less, &'a Occ>;
+
+struct Routes<'a> {
+    built: &'a Built,
+    occ: &'a Occ,
+    fm: Fm<'a>,
+    fmd: Fmd<'a>,
+    unchecked: Fmd<'a>,
+}
+
+/// kind "routes-index": what does not depend on a pattern
+fn check_routes_index(r: &Routes, cc: &mut CaseCtx) {
+    cc.nontrivial();
+    let n = r.built.text.len();
+    if r.unchecked != r.fmd {
+        cc.violation(
+            "C06/from_fmindex_unchecked/index-differs",
+            format!("text {:?}: from_fmindex_unchecked(fm) != FMDIndex::from(fm)", show(&r.built.text)),
+        );
+    }
+    for (name, idx) in [("from", &r.fmd), ("unchecked", &r.unchecked)] {
+        let res = guard(|| {
+            let mut bad: Option<String> = None;
+            if idx.bwt() != &r.built.bwt {
+                bad = Some(format!("bwt() = {:?}, index was built over {:?}", show(idx.bwt()), show(&r.built.bwt)));
+            }
+            let mut acc = 0u64;
+            for &a in INDEX_SYMBOLS {
+                let (got, want) = (idx.less(a), r.fm.less(a));
+                if got != want || want != r.built.less[a as usize] {
+                    bad.get_or_insert(format!("less({:?}) = {} through the FMD index, {} through FMIndex, table entry {}", a as char, got, want, r.built.less[a as usize]));
+                }
+                for row in 0..n {
+                    let (got, want) = (idx.occ(row, a), r.fm.occ(row, a));
+                    acc = acc.wrapping_mul(31).wrapping_add(got as u64);
+                    if got != want || want != r.occ.get(&r.built.bwt, row, a) {
+                        bad.get_or_insert(format!("occ({}, {:?}) = {} through the FMD index, {} through FMIndex", row, a as char, got, want));
+                    }
+                }
+            }
+            (bad, acc)
+        });
+        match res {
+            Err(msg) => cc.violation("C06/fmd-as-fmindexable/panic", format!("index via {}: {}", name, msg)),
+            Ok((bad, acc)) => {
+                cc.outcome(&acc);
+                if let Some(d) = bad {
+                    cc.violation("C06/fmd-as-fmindexable/accessor-differs", format!("text {:?}, index via {}: {}", show(&r.built.text), name, d));
+                }
+            }
+        }
+    }
+}
+
+/// kind "routes": one pattern through both constructors and through the trait
+fn check_routes(r: &Routes, p: &[u8], lmax: usize, cc: &mut CaseCtx) {
+    let m = p.len();
+    let mut sink = Sink::default();
+    // ---- FMIndexable::backward_search through the wrapper
+    let plain = guard(|| r.fm.backward_search(p.iter()));
+    for (name, idx) in [("from", &r.fmd), ("unchecked", &r.unchecked)] {
+        let got = guard(|| idx.backward_search(p.iter()));
+        if let Err(msg) = &got {
+            sink.violation("C06/fmd-as-fmindexable/panic", format!("backward_search on the index via {}: {}", name, msg));
+        } else if plain.is_ok() && got != plain {
+            sink.violation(
+                "C06/fmd-as-fmindexable/backward_search-differs",
+                format!("index via {}: FMDIndex::backward_search = {:?}, FMIndex::backward_search = {:?}", name, got, plain),
+            );
+        }
+    }
+    if let Ok(b) = &plain {
+        cc.outcome(b);
+    }
+    // ---- smems / all_smems through both constructors
+    for i in 0..m {
+        for l in 1..=lmax {
+            let a = guard(|| r.fmd.smems(p, i, l));
+            let b = guard(|| r.unchecked.smems(p, i, l));
+            match (&a, &b) {
+                (_, Err(msg)) => sink.violation("C06/from_fmindex_unchecked/panic", format!("smems(p, {}, {}): {}", i, l, msg)),
+                (Ok(x), Ok(y)) if x != y => sink.violation(
+                    "C06/from_fmindex_unchecked/smems-differ",
+                    format!("smems(p, {}, {}): via from {:?}, via from_fmindex_unchecked {:?}", i, l, x, y),
+                ),
+                _ => {}
+            }
+        }
+    }
+    for l in 1..=lmax {
+        let a = guard(|| r.fmd.all_smems(p, l));
+        let b = guard(|| r.unchecked.all_smems(p, l));
+        if l == 1 {
+            if let Ok(x) = &a {
+                let mut spans: Vec<(usize, usize)> = x.iter().map(|t| (t.1, t.2)).collect();
+                spans.sort();
+                spans.dedup();
+                cc.set_nontrivial(spans.len() >= 2);
+                cc.outcome(&spans);
+            }
+        }
+        match (&a, &b) {
+            (_, Err(msg)) => sink.violation("C06/from_fmindex_unchecked/panic", format!("all_smems(p, {}): {}", l, msg)),
+            (Ok(x), Ok(y)) if x != y => sink.violation(
+                "C06/from_fmindex_unchecked/smems-differ",
+                format!("all_smems(p, {}): via from {:?}, via from_fmindex_unchecked {:?}", l, x, y),
+            ),
+            _ => {}
+        }
+    }
+    // ---- extensions: the same chains as in the main case, executed on both indexes side by side
+    let both = |what: String, f: &dyn Fn(&Fmd) -> BiInterval, sink: &mut Sink| -> Option<BiInterval> {
+        let a = guard(|| f(&r.fmd));
+        let b = guard(|| f(&r.unchecked));
+        match (a, b) {
+            (_, Err(msg)) => {
+                sink.violation("C06/from_fmindex_unchecked/panic", format!("{}: {}", what, msg));
+                None
+            }
+            (Ok(x), Ok(y)) => {
+                if x != y {
+                    sink.violation(
+                        "C06/from_fmindex_unchecked/extension-differs",
+                        format!("{}: via from {:?}, via from_fmindex_unchecked {:?}", what, x, y),
+                    );
+                    None
+                } else {
+                    Some(x)
+                }
+            }
+            (Err(_), Ok(_)) => None, // a panic of the index built by `from` is reported by the main units
+        }
+    };
+    let empty = both("init_interval()".into(), &|f| f.init_interval(), &mut sink);
+    for s in 0..m {
+        if let Some(em) = empty {
+            both(format!("backward_ext(empty, p[{}])", s), &|f| f.backward_ext(&em, p[s]), &mut sink);
+            both(format!("forward_ext(empty, p[{}])", s), &|f| f.forward_ext(&em, p[s]), &mut sink);
+        }
+        let mut cur = both(format!("init_interval_with(p[{}])", s), &|f| f.init_interval_with(p[s]), &mut sink);
+        for e in s + 2..=m {
+            let prev = match cur {
+                Some(x) => x,
+                None => break,
+            };
+            if s > 0 {
+                both(format!("backward_ext([{},{}), p[{}])", s, e - 1, s - 1), &|f| f.backward_ext(&prev, p[s - 1]), &mut sink);
+            }
+            cur = both(format!("forward_ext([{},{}), p[{}])", s, e - 1, e - 1), &|f| f.forward_ext(&prev, p[e - 1]), &mut sink);
+        }
+        if let (Some(last), true) = (cur, s > 0) {
+            both(format!("backward_ext([{},{}), p[{}])", s, m, s - 1), &|f| f.backward_ext(&last, p[s - 1]), &mut sink);
+        }
+    }
+    let mut seen: Vec<String> = vec![];
+    for (k, d) in sink.0 {
+        if !seen.contains(&k) {
+            seen.push(k.clone());
+            cc.violation(k, d);
+        }
+    }
+}
+
+fn seqs_json(seqs: &[Vec<u8>]) -> Vec<String> {
+    seqs.iter().map(|s| show(s)).collect()
+}
+
+/// all route cases of one sequence set: per rate one "routes-index" case and one "routes" case per
+/// pattern.  `index_case` = false restricts to the pattern cases (replay of one of them).
+fn run_routes(ctx: &mut Ctx, seqs: &[Vec<u8>], rates: &[u32], pats: &[Vec<u8>], lmax: usize, index_case: bool) {
+    let built = match guard(|| build(seqs)) {
+        Ok(b) => b,
+        Err(_) => return, // reported by the main units (C06/index-construction/panic)
+    };
+    let alphabet = dna::n_alphabet();
+    for &k in rates {
+        let occ = match guard(|| Occ::new(&built.bwt, k, &alphabet)) {
+            Ok(o) => o,
+            Err(_) => continue, // reported by the main units
+        };
+        let fmd: Fmd = match guard(|| FMDIndex::from(FMIndex::new(&built.bwt, &built.less, &occ))) {
+            Ok(f) => f,
+            Err(_) => continue, // reported by the main units
+        };
+        // the text is over the DNA alphabet by construction, which is the documented precondition
+        let unchecked: Fmd = match guard(|| unsafe { FMDIndex::from_fmindex_unchecked(FMIndex::new(&built.bwt, &built.less, &occ)) }) {
+            Ok(f) => f,
+            Err(msg) => {
+                ctx.case(
+                    || json!({"kind": "routes-index", "seqs": seqs_json(seqs), "rate": k}),
+                    |cc| cc.violation("C06/from_fmindex_unchecked/panic", format!("construction: {}", msg)),
+                );
+                continue;
+            }
+        };
+        let r = Routes { built: &built, occ: &occ, fm: FMIndex::new(&built.bwt, &built.less, &occ), fmd, unchecked };
+        if index_case {
+            ctx.case(|| json!({"kind": "routes-index", "seqs": seqs_json(seqs), "rate": k}), |cc| check_routes_index(&r, cc));
+        }
+        for p in pats {
+            ctx.case(
+                || json!({"kind": "routes", "seqs": seqs_json(seqs), "rate": k, "p": show(p), "lmax": lmax}),
+                |cc| check_routes(&r, p, lmax, cc),
+            );
+        }
+        if ctx.res.capped {
+            return;
+        }
+    }
+}
+
 impl Prop for C06Prop {
     fn id(&self) -> &'static str {
         "C06"
@@ -506,7 +735,7 @@ impl Prop for C06Prop {
         "exploration"
     }
     fn rule(&self) -> &'static str {
-        "Complete product, per alphabet family, of (sequence set: every single sequence, every ordered pair and every ordered triple up to the family's length bounds) x (Occ sampling rate) x (every pattern over the complement-closure of the family's alphabet up to the pattern bound); one case per triple, each enumerated once. Inside a case: smems(p,i,l) for every i < |p| and l in 1..=lmax, all_smems(p,l) for the same l, and every one-symbol forward and backward extension of every substring of p (and of the empty string). Non-trivial: some pattern position is covered by at least two different supermaximal matches (so the pattern has SMEMs that are proper substrings and smems() has to return more than one of them)."
+        "Complete product, per alphabet family, of (sequence set: every single sequence, every ordered pair and every ordered triple up to the family's length bounds) x (Occ sampling rate) x (every pattern over the complement-closure of the family's alphabet up to the pattern bound); one case per triple, each enumerated once. Inside a case: smems(p,i,l) for every i < |p| and l in 1..=lmax, all_smems(p,l) for the same l, and every one-symbol forward and backward extension of every substring of p (and of the empty string). Non-trivial: some pattern position is covered by at least two different supermaximal matches (so the pattern has SMEMs that are proper substrings and smems() has to return more than one of them). Units routes-*: over the same sequence sets and rates (patterns one symbol shorter), kind routes-index = one (set, rate): the index from the unsafe constructor from_fmindex_unchecked equals the one from FMDIndex::from, and bwt()/less(a)/occ(r,a) of the FMIndexable implementation of FMDIndex equal those of a plain FMIndex over the same components for every row and every alphabet symbol; kind routes = one (set, rate, pattern): FMDIndex::backward_search equals FMIndex::backward_search, and smems(p,i,l), all_smems(p,l) and every extension step of the main case give identical results on the two differently constructed indexes (non-trivial: the pattern has at least two distinct SMEMs)."
     }
     fn assumptions(&self) -> Vec<&'static str> {
         vec![
@@ -515,6 +744,7 @@ impl Prop for C06Prop {
             "occurrences are read from the full suffix array vector",
             "order of results is not checked; duplicates are tolerated in all_smems only; l = 0 and patterns outside the DNA alphabet are outside the statement; BiInterval::match_size is not checked",
             "extension of an empty bi-interval must stay empty and must not panic",
+            "routes: from_fmindex_unchecked is only used on texts that satisfy its documented precondition (DNA alphabet, sequence followed by reverse complement); equality of results includes their order, since both indexes run the same code on equal components",
         ]
     }
     fn bounds(&self, tier: Tier) -> Value {
@@ -541,12 +771,33 @@ impl Prop for C06Prop {
             "occ_rates": rates(tier),
             "positions": "every i < |p|",
             "min_len_l": format!("1..={}", lmax(tier)),
+            "routes": {"sets_and_rates": "as above", "pattern_len": FAMILIES.iter().map(|f| format!("{}: 1..={}", f.name, route_pat_len(f, tier))).collect::<Vec<_>>(), "index_symbols": show(INDEX_SYMBOLS)},
         })
     }
     fn units(&self, _tier: Tier) -> Vec<String> {
-        (0..NSHARDS).map(|i| format!("sets-{}", i)).collect()
+        let mut v: Vec<String> = (0..NSHARDS).map(|i| format!("sets-{}", i)).collect();
+        v.extend((0..ROUTE_SHARDS).map(|i| format!("routes-{}", i)));
+        v
     }
     fn run_unit(&self, tier: Tier, unit: usize, ctx: &mut Ctx) {
+        if unit >= NSHARDS {
+            let shard = unit - NSHARDS;
+            let mut idx = 0usize;
+            for f in FAMILIES {
+                let pats = gen::strings(f.pat_alpha, 1, route_pat_len(f, tier));
+                for set in family_sets(f, tier) {
+                    idx += 1;
+                    if idx % ROUTE_SHARDS != shard {
+                        continue;
+                    }
+                    run_routes(ctx, &set, rates(tier), &pats, lmax(tier), true);
+                    if ctx.res.capped {
+                        return;
+                    }
+                }
+            }
+            return;
+        }
         let mut idx = 0usize;
         for f in FAMILIES {
             let pats = gen::strings(f.pat_alpha, 1, tier.pick(f.pat.0, f.pat.1));
@@ -568,6 +819,16 @@ impl Prop for C06Prop {
             .map(|a| a.iter().map(|s| unshow(s.as_str().unwrap_or(""))).collect())
             .unwrap_or_default();
         let rate = case["rate"].as_u64().unwrap_or(1) as u32;
+        if case["kind"] == "routes-index" {
+            run_routes(ctx, &seqs, &[rate], &[], 1, true);
+            return;
+        }
+        if case["kind"] == "routes" {
+            let p = unshow(case["p"].as_str().unwrap_or(""));
+            let lm = case["lmax"].as_u64().unwrap_or(3) as usize;
+            run_routes(ctx, &seqs, &[rate], &[p], lm, false);
+            return;
+        }
         if case["kind"] == "build" {
             run_set(ctx, &seqs, &[rate], &[], 1);
             return;
